@@ -103,3 +103,6 @@ def run(ctx):
     r = ctx.rule("R5m", "aarch64 compare / not / and / or: the compare masks and bitwise selects give the opcode's value in every lane (symbolic masks, all consistent truth assignments)", 12)
     for kind in X64.KINDS:
         ctx.guarded(r, XS.check_mask_logic, kind)
+    r = ctx.rule("R2p", "x86_64 branch-free compare / not / and / or: compare masks and bitwise selects give the opcode's value in every lane (symbolic masks)", 8)
+    for kind in AC.ALL:
+        ctx.guarded(r, XS86.check_mask_logic, kind)
